@@ -884,7 +884,8 @@ def run(ctx):
     ]
     tasks = tasks_for(ctx)
     t0 = time.time()
-    results = par.pmap(_task, tasks)
+    # watchdog: a backend call that never returns (CBC, seen once in C10) cannot be interrupted by SIGALRM
+    results = par.pmap(_task, tasks, timeout=900 if quick else 2400, default=lambda t: ([], {"skipped": f"killed by the watchdog: {t.get('kind')}/{t.get('idx')}"}))
     ctx.parts["impl_wall_s"] = round(time.time() - t0, 1)
     run_mc(ctx, quick)
     rows, metas, skipped, failed, slow = [], {}, [], [], []
